@@ -228,7 +228,8 @@ fn chain_case(rng: &mut Rng) -> LCase {
         6 => n_final + 1,
         _ => 100000,
     };
-    let step = 10u64;
+    // one clock reading = 10 ns, 0.4 s or 1.5 s: budgets and consumed time reach whole seconds in a few readings
+    let step = *rng.pick(&[10u64, 10, 400_000_000, 1_500_000_000]);
     let max_time = match rng.below(10) {
         0 => Some(0),
         1 => Some(step * rng.below(6)),
